@@ -107,4 +107,12 @@ PROPS["C14"] = {
     "assumptions": ["a Keys() slice is sorted by the scenario as soon as it is obtained (map iteration order is unspecified)"],
 }
 
+PROPS["C15"] = {
+    "parts": [{"family": "values", "admits": "ValuesCorr.admits_values", "model_obs": "model_vobs"}],
+    "level_text": "Theorems for every value of the modelled Go value universe (structural case analysis, any nesting): C15_variants (plain / Or-default / Must agree in all six families), C15_store_result and C15_store_missing (the store's second copy of every type switch agrees with the result accessor; a missing key gives the default), C15_conv_exact (AsInt / AsFloat64 succeed exactly for the 12 documented source types and return the modelled Go conversion: wrap to int64, truncation towards zero, round-to-nearest-even, exact float32 widening), C15_slice (AsSlice succeeds exactly for slice kinds and yields ToSlice's elements; ToSlice nil -> [], non-slice -> [v]); totality is structural. spec_C15 is proved of the model's results and applied to the implementation's 61 accessor results per value; conversions are compared bit for bit.",
+    "level_note": _T + " The integer / IEEE-754 conversion functions are a hand-written specification of Go's conversions (cross-checked against the Go compiler on boundary and random values by this check); float -> int outside the int64 range is unspecified in Go and not compared.",
+    "explanation": "case analysis over the value universe; differential run of every accessor on boundary and random values",
+    "assumptions": ["int is 64 bits wide (the platform of this sandbox)"],
+}
+
 NOT_APPLICABLE = {}
